@@ -19,6 +19,8 @@ Translation validation, per program of a stated finite family (corpus/c01fam.py:
       calls        same sequence of external calls with the same argument values
       ir-defined   the IR execution itself stays defined (no division by zero, shift count >= width, read of an
                    undefined value, out-of-region access) whenever the C program is defined
+      terminates   (only when violated) the IR finishes within the step bound on every path on which the C program
+                   finished within its unwinding bound (a mis-compiled loop that spins is reported, not cut)
       layout       (only when violated) the size of every global object equals sizeof of its type in the data model
 Loops are unwound (bounded trip counts by construction of the family; cut paths are counted, never claimed).
 """
@@ -47,7 +49,7 @@ BOUNDS = {
                           "triples, 40 sampled depth-2/3 trees (VERIF_SEED), ~130 statement templates",
               "symbolic": "all argument values (full range of each parameter type), initial bytes of uninitialised globals, "
                           "16 bytes behind each pointer parameter, 4 external call results (64 bit)",
-              "unwinding": "24 loop iterations / 400 IR instructions per run, call depth 4"},
+              "unwinding": "24 loop iterations / 400 IR instructions per run, call depth 8"},
     "thorough": {"targets": "x86_64 (LP64) full; arm (ILP32), msp430 (16-bit int, 16-bit pointers), riscv (ILP32) on the "
                             "covering subset",
                  "programs": "x86_64: every binary operator x all 121 operand type pairs, all 121 conversion pairs (cast, return, "
@@ -87,13 +89,14 @@ class ProgHarness(Harness):
     W = 80
     max_paths = 600
     max_decisions = 400
-    cut_allowance = 10 ** 6
+    cut_allowance = 0               # the family bounds all trip counts: no path may be cut
     timeout_ms = 15000
     prove_timeout_ms = 60000
     prove_uf_first = True
     shim_modules = ()
     max_iter = 24
     max_steps = 400
+    max_depth = 8
 
     def __init__(self, fam, prog, march="x86_64", tags=None):
         self.fam = fam
@@ -191,16 +194,22 @@ class ProgHarness(Harness):
                 bs = list(inp["glob"][name])
                 glob[name] = (bs + [0] * n)[:n]
         sem = cp.CSem(M, self.prog, ext_results=inp["ext"], init_globals=glob, buffers=inp["bufs"],
-                      max_iter=self.max_iter)
+                      max_iter=self.max_iter, max_depth=self.max_depth)
         try:
             rc = sem.run("f", argv)
         except cp.StepLimit as e:
             raise core.PathCut(str(e))
         # 2. reference IR semantics of the front end's output
         try:
-            s, ri = _tv.run_ref(mod, "f", inp, ptr_bits=M.ptr_bits, max_steps=self.max_steps)
+            s, ri = self.run_ir(mod, inp)
         except irsem.Unsupported as e:
             return dict(status="ir-unsupported", detail=str(e)[:100])
+        except core.PathCut:
+            # the C program has terminated (within the unwinding bound) but the IR is still running after max_steps
+            # instructions / max call depth: on the inputs of this path the front end's output does not terminate
+            # the way the program does (an infinite loop shows up here)
+            self._assume(sem.defined())
+            return dict(status="ir-step-limit", detail=f"{sem.iters} loop iterations in C")
         # the premise: the C program is defined on this path (assumed last, so that the branch feasibility queries of
         # both executions do not carry the overflow predicates; a path without any defined input is dropped)
         self._assume(sem.defined())
@@ -240,6 +249,24 @@ class ProgHarness(Harness):
         out["ir_defined"] = _tv.term_out(s.premise())
         return out
 
+    def run_ir(self, mod, inp):
+        """reference IR semantics of function f (as props/_tv.run_ref, with this harness' bounds)"""
+        pb = self.model.ptr_bits
+        s = irsem.IrSem(mod, ptr_bits=pb, ext_results=inp["ext"], max_steps=self.max_steps, max_depth=self.max_depth + 1,
+                        init_globals=inp["glob"], buffers=inp["bufs"])
+        f = _tv.find_function(mod, "f")
+        argv = []
+        for (kind, v), p in zip(inp["args"], f.arguments):
+            if kind == "ptr":
+                argv.append(z3.BitVecVal(s.buf_addr[v], pb))
+            else:
+                argv.append(irsem.bvv(v, irsem.bits_of(p.ty, pb)))
+        try:
+            r = s.call(f, argv)
+        except irsem.StepLimit as e:
+            raise core.PathCut(str(e))
+        return s, r
+
     @staticmethod
     def _assume(cond):
         c = z3.simplify(cond)
@@ -266,6 +293,8 @@ class ProgHarness(Harness):
             return {"returns": False}
         if st == "ir-unsupported":
             return {"not-comparable(" + v["detail"][:40] + ")": True}
+        if st == "ir-step-limit":
+            return {"terminates": False}
         ok, ri, rc = v["ret"]
         posts = {"returns": (ri == rc) if ok else False}
         conds = [a == b for _, a, b in v["mem"]]
